@@ -626,6 +626,11 @@ impl Node {
         self.pending_rpcs.len()
     }
 
+    #[cfg(edp_verif)]
+    pub fn verif_pid_allocator(&self) -> &PidAllocator {
+        &self.pid_allocator
+    }
+
     pub async fn rpc_call(
         &self,
         remote_node: &str,
